@@ -106,6 +106,10 @@ func (h *killedHandler) cleanupIfNotRestarting() {
 		ActorRef: h.ctx.ref,
 		Type:     reflect.TypeOf(h.ctx.actor),
 	})
+
+	// 若终止时邮箱处于挂起状态（例如失败后被监管者停止），其中排队的以及之后通过已缓存邮箱的引用投递的用户消息将永远滞留；
+	// 恢复邮箱使其排空并进入死信
+	h.ctx.mailbox.Resume()
 }
 
 // cleanupScheduler 清理调度器
